@@ -199,6 +199,17 @@ Proof.
   apply forall2_weaken with (P := item_at f); [intros a b [_ Hab]; exact Hab|]. apply Ho, fuel_for_items. lia.
 Qed.
 
+(* an array whose last item is given separately (the optional trailing item of SArrOpt) *)
+Lemma parses_array_snoc (bl : list bytes) (e : bytes) : Forall parses bl -> parses e -> 1 + len bl < two64 ->
+  parses (encode_head 4 (1 + len bl) ++ concat bl ++ e).
+Proof.
+  intros Hbl He Hn.
+  replace (concat bl ++ e) with (concat (bl ++ [e])) by (rewrite concat_app; cbn [concat]; rewrite app_nil_r; reflexivity).
+  replace (1 + len bl) with (len (bl ++ [e])) by (unfold len; rewrite app_length; cbn [length]; lia).
+  apply parses_array; [apply Forall_app; split; [exact Hbl|constructor; [exact He|constructor]]|].
+  unfold len in *. rewrite app_length. cbn [length]. lia.
+Qed.
+
 Lemma parses_array_indef (bl : list bytes) : Forall parses bl -> parses (159 :: concat bl ++ [255]).
 Proof.
   intros Hbl. destruct (parses_outs bl Hbl) as [outs Ho].
@@ -329,6 +340,14 @@ Proof.
     + apply parses_bstr. unfold len, two64. lia.
     + apply parses_chunked. apply Forall_forall. intros c Hc. apply chunk64_bounds in Hc. unfold len, two64. lia.
   - (* SNamed *) intros id s IH Hs v Hv. cbn [enc wfv wfs] in *. apply IH; assumption.
+  - (* SArrOpt *) intros fs IHfs o IHo Hs v Hv. cbn [wfs] in Hs. split_ands.
+    destruct v as [| | | | | | | | | |i v0]; try discriminate. destruct i as [|[|i]]; destruct v0; try discriminate; cbn [enc wfv] in *.
+    + destruct (IHfs ltac:(assumption) l Hv) as (bl & -> & Hl & Hbl). rewrite <- Hl. apply parses_array; [exact Hbl|].
+      match goal with H : (1 + slen fs <? two64) = true |- _ => apply N.ltb_lt in H; rewrite <- Hl in H; eapply N.lt_trans; [|exact H]; apply N.lt_add_pos_l; reflexivity end.
+    + destruct l as [|x l]; [discriminate|]. split_ands.
+      destruct (IHfs ltac:(assumption) l ltac:(assumption)) as (bl & -> & Hl & Hbl). rewrite <- Hl.
+      apply parses_array_snoc; [exact Hbl|apply IHo; assumption|].
+      match goal with H : (1 + slen fs <? two64) = true |- _ => apply N.ltb_lt in H; rewrite <- Hl in H; exact H end.
   - (* SNil *) intros _ l Hl. destruct l; try discriminate. exists []. repeat split. constructor.
   - (* SCons *) intros s IH r IHr Hs l Hl. destruct l as [|v t]; try discriminate. cbn [wfs_sl wfv_sl enc_sl slen] in *. split_ands.
     destruct (IHr ltac:(assumption) t ltac:(assumption)) as (bl & -> & Hlen & Hbl).
